@@ -48,6 +48,11 @@ class ZONEINFO(TZProvider):
         except ValueError:
             # ValueError: ZoneInfo keys may not be absolute paths, got: /Europe/CUSTOM
             pass
+        except OSError:
+            # The key names something in the time zone database that is not
+            # a zone, e.g. IsADirectoryError for "America", or it is too long
+            # to be a file name.
+            pass
 
     def knows_timezone_id(self, id: str) -> bool:
         """Whether the timezone is already cached by the implementation."""
